@@ -126,6 +126,7 @@ type Report struct {
 	// StatesN / TransitionsN, when set, replace the counts derived from States / Transitions
 	// (checks whose state space lives in another process: the CRUD BFS of C05).
 	StatesN       int
+	NontrivialN   int
 	failures      map[string]*Failure
 	failCount     map[string]int
 	InternalError []string
@@ -249,7 +250,7 @@ func (r *Report) Finish() int {
 		"transitions":                   max1(r.Transitions),
 		"traces_validated_against_impl": r.TracesImpl,
 		"evaluations":                   r.Evaluations,
-		"distinct_nontrivial":           len(r.Nontrivial),
+		"distinct_nontrivial":           maxInt(len(r.Nontrivial), r.NontrivialN),
 		"rule":                          r.Rule,
 		"samples":                       r.Samples,
 		"exhaustive":                    r.Exhaustive,
@@ -285,7 +286,7 @@ func (r *Report) Finish() int {
 		return 2
 	}
 	fmt.Printf("%s tier=%s evaluations=%d states=%d nontrivial=%d transitions=%d outcomes=%d exhaustive=%v violations=%d known=%d wall=%.1fs\n",
-		r.Property, r.Tier, r.Evaluations, len(r.States), len(r.Nontrivial), r.Transitions, len(r.Outcomes), r.Exhaustive, len(violations), len(knownList), time.Since(r.Start).Seconds())
+		r.Property, r.Tier, r.Evaluations, maxInt(len(r.States), r.StatesN), maxInt(len(r.Nontrivial), r.NontrivialN), r.Transitions, len(r.Outcomes), r.Exhaustive, len(violations), len(knownList), time.Since(r.Start).Seconds())
 	if len(r.InternalError) > 0 {
 		for _, e := range r.InternalError {
 			fmt.Fprintln(os.Stderr, "INTERNAL ERROR:", firstLines(e, 12))
